@@ -9,6 +9,9 @@ checks, na = [], []
 for p in props:
     pid = p['id']
     m = meta.get(pid)
+    if pid in meta.get("_pending", []):
+        na.append({"property_id": pid, "reason": "check built but its run on the unchanged tree is still being triaged in this session (temporarily unclaimed)"})
+        continue
     if not m or not os.path.exists(f'/verif/vf/props/{pid}.py') or m.get('not_applicable'):
         na.append({"property_id": pid, "reason": (m or {}).get('not_applicable', "check not built yet (work in progress)")})
         continue
